@@ -3,7 +3,7 @@ import itertools, math
 import numpy as np
 
 RULE = ("point sets = every ordered selection of 2-4 points from an 8-point lattice block (collinear runs, 3-4-5 rectangles, exact ties included) "
-        "x balancing factor {0, 1/5, 2/5, 1/2, 1} x branching limit {-1,1,2,3} x root exemption x soma given or first point x sorting on/off "
+        "x balancing factor {0, 1/5, 2/5, 1/2, 1} x branching limit {-1,1,2,3} (random clouds also 12 and 15 with strong balancing, where a large limit still binds) x root exemption x soma given or first point x sorting on/off "
         "(options cycled), plus random clouds of 5-120 points in general position (float64 and float32, some far from the origin); a third of the clouds are handed to a transform object that "
         "was applied to tiny clouds before (histories: no call may leave state behind); the observed "
         "tree is validated by Trace_Mst: TLC re-runs the greedy machine and requires a cost-minimal admissible pair among the observed edges at "
@@ -98,8 +98,12 @@ def random_cases(ctx, count, nmax):
         if dtype == "f32":                      # float32 clouds far from the origin: where a cancellation-prone distance formula would show
             off = [[0.0, 0.0, 0.0], [50.0, -80.0, 20.0], [800.0, 900.0, -700.0], [8000.0, 7000.0, -9000.0]][(t // 3) % 4]
         pts = rng.random((n, 3)) * float(rng.choice([10.0, 60.0, 300.0])) + np.array(off)
-        bf = BFS[t % 5]; k = [-1, 2, 3, 1, -1][(t // 5) % 5]; ex = (t // 7) % 2
+        bf = BFS[t % 5]; k = [-1, 2, 3, 1, -1, 12, 15][(t // 5) % 7]; ex = (t // 7) % 2
         soma = None if t % 2 else list(pts.mean(axis=0))
+        if t % 8 == 4 and dtype == "f64":
+            # atlas-sized coordinates with the soma a fraction of a unit away from a point of the cloud (a distinct point, far below 1e-5 of the coordinates)
+            pts = pts + np.array([41234.5, -38765.25, 52000.75])
+            soma = list(pts[int(rng.integers(0, n))] + np.array([0.31, -0.22, 0.27]))
         api = "mst" if bf == (0, 1) and t % 2 == 0 else "cuntz"
         c = build_case([list(r) for r in pts], soma, bf, k, ex, t % 3 != 1, dtype, api)
         if t % 3 == 2:              # a history: the transform object is first used on tiny clouds
